@@ -50,3 +50,75 @@ check("C19",
       "Trusted: rename(2) atomicity; no power-loss / fsync model; no concurrently planted links; posixpath and Twisted FilePath are hand-modelled and "
       "compared on every run.",
       "Coq proof over AST-translated op orders and guards + in-Coq correspondence of OS-level traces + sentinel-directory oracle", "DESIGN.md 5/C19")
+
+check("C04",
+      "Theorems (Coq, 13, over all op sequences Issue/StallRelease/Deliver/GiftReady/Turn): the calls entered on the receiver are a subsequence of "
+      "the issue order (strictly increasing, NoDup), head-of-line blocking, at most one delivery waiting, no silent loss, sender never idle with "
+      "queued work, receiver never stuck, every reachable state can be settled, LocalReferenceable order. The model's enqueue/dequeue are driven by "
+      "queue disciplines translated as shape facts from the AST of slicers/root.py (RootSlicer.__next__ / send), broker.py (scheduleCall / "
+      "doNextCall, head-of-line guard) and eventual.py on every run, so e.g. pop() instead of pop(0) regenerates PopBack and breaks the proofs. "
+      "Step-by-step trace validation against a real Broker pair (sendQueue, slicer stack, inboundDeliveryQueue, waiting flag, entered list after "
+      "every step; about 10 k step comparisons quick) by vm_compute; direct oracle on entry order of instrumented remote_* methods incl. streaming "
+      "slicers that yield Deferreds, real third-party gifts over three Tubs, schema rejections, re-entrant calls, random chunking; shrinking.",
+      "Modelled, not verified: in-order delivery by the wire, Twisted Deferred chaining order, the receive parser (one Deliver step; tied by trace "
+      "validation), connection loss (C03), gifts resolved only after their call is completely received.",
+      "Coq invariant proofs over op lists on translated queue disciplines + step-by-step trace validation on a real Broker pair", "DESIGN.md 5/C04")
+
+check("C06",
+      "Theorems (Coq, 18, over all states / messages / interleaved histories on two connections): a call enters only the broker's three methods "
+      "(clid 0), or an object present in this connection's export table under that clid with attribute 'remote_'+name (and in its interface); exports "
+      "were granted on that same connection with positive refcount; name lookups yield only registered or handler-provided objects; only registered "
+      "Copyable classes are instantiated; open types are a closed allowlist; refusals are pure; connection-locality (non-interference with the other "
+      "connection's table, frame property). Translated on every run: the 'remote_' prefix, clid lookup and refusal kinds (Violation vs KeyError), "
+      "ReferenceableTracker.decref (PyLite), RIBroker's method set, NAMEBITS, registry key sets after import. Per-event trace correspondence "
+      "(about 3000 events quick) of hand-built token streams (live / stale / foreign / negative / huge clids, 21 hostile method names, your-reference, "
+      "copyable and other open types, getReferenceByName / decref) against one real Tub with two real Brokers; independent capability-bookkeeping "
+      "oracle with instrumented application objects and shrinking.",
+      "Dropping the whole connection (unknown your-reference, undecodable method name) counts as a permitted refusal. Name lookups are excluded from "
+      "the history-level non-interference theorem (the name table is Tub-wide by design). Modelled, not verified: Banana token layer, RIBroker "
+      "argument schema, weakref collection of names, gifts.",
+      "Coq proofs over all histories + AST translation of dispatch facts + per-event trace correspondence on real Brokers", "DESIGN.md 5/C06")
+
+check("C11",
+      "Theorems (Coq, for every handler semantics above the tokenizer and every chunk sequence): the accept/reject verdict on a token is a function of "
+      "its first 65 bytes; a rejected incomplete body empties the buffer and exactly the missing byte count is skipped; skipped bytes are neither "
+      "inspected nor stored; if the tasters accept a body only when it fits B then the bytes held never reach 65 + max(B, SIZE_LIMIT); 65 header bytes "
+      "without a type byte end the connection; the size-limited tasters of the banana.py transcription accept a sized body only within their limit; "
+      "the negotiation phase refuses more than 4096 buffered bytes (translated constant). Tie: the tokenizer model is the one validated by C07; here "
+      "oversize claims (limit+1 .. 2^448-1) under size-limited tasters are trickled in 1..4096-byte chunks on the real Banana and buffer length / "
+      "skip count are compared with the model after every chunk. Direct oracle with the REAL constraint classes (ByteString, Integer, Number, "
+      "Unicode, ListOf, TupleOf, DictOf, SetOf, nested) as root constraint: oversize bodies at leaf positions, high-water mark of len(buffer) against "
+      "65 + the schema bound; negotiation cap at 4096/4097/10000 bytes.",
+      "The schema bound of a real constraint tree is computed by the harness from the constraint objects' public attributes; Decimal and VOCAB "
+      "expansion carry no size parameter in the schema vocabulary and are outside the bounded fragment.",
+      "Coq proof of buffer bounds for a generic tokenizer + per-chunk correspondence + high-water oracle on real constraints", "DESIGN.md 5/C11")
+
+check("C14",
+      "Theorems (Coq, 11): for every finite schedule of lookups / dials / block deliveries / cuts / per-end close notifications / restarts / "
+      "time-outs of a two-Tub model, at quiescence M's current connection is c iff S's is c (full statement, inductive per-connection invariant); the "
+      "current connection is the unique live Broker end; decision lemmas on the TRANSLATED compareOfferAndExisting (older seqnum / 'none' from the "
+      "same incarnation rejected, different incarnation accepted, equal accepted, greater rejected, pre-0.2.0 by handle-old age); waiters are "
+      "answered when the connector finishes or times out; issued = fired + waiting. 'A redundant attempt never displaces' is refuted for offers that "
+      "remember the master's past life (known finding, replayed on real Tubs). Tie: fail-closed AST translation of compareOfferAndExisting / "
+      "handle_old and about 60 shape facts of negotiate / connection / pb / broker; 1512 decision cases and 150 seeded schedules of two real Tubs on "
+      "the in-memory network compared with the model after every step (brokers, master/slave tables, connectors, waiters, link states). Direct "
+      "oracle: cross-connects with 1-3 hints, cuts, restarts, black holes, byte- and block-granular delivery, virtual time: agreement at quiescence, "
+      "no displacement by a redundant attempt, restart displaces, every getReference fires exactly once within CONNECTION_TIMEOUT.",
+      "Modelled, not verified: Twisted Deferreds/reactor, TLS (no-op), whole-block delivery in the model (byte interleavings by the oracle only), "
+      "incarnations as integers, version/vocab negotiation assumed to succeed (C13), two Tubs only; per-Deferred exactly-once and the 120 s bound "
+      "are checked by the oracle.",
+      "Coq inductive invariant over all schedules + translated decision function + trace validation of real Tubs", "DESIGN.md 5/C14")
+
+check("C15",
+      "Theorems (Coq, 12, over all event histories Rx/Tick/Close on a model built from the translated timer callbacks; time exact in integer ms): "
+      "an idle connection is torn down by last-activity + 2T + EPSILON + reactor lateness (tight); arrivals at least every T => never torn down; "
+      "teardown / PING only when idle for more than T / K; PING within 2K + EPSILON; at most one teardown; connectionLost cancels both timers for "
+      "good; PING/PONG are deleted from the token stream with one PONG n per PING n; byte-level echo for all n < 2^448 (translated int2b128 / "
+      "b1282int) and refusal above. Tie: keepaliveTimerFired, disconnectTimerFired, the arming blocks of connectionMade, the dataReceived stamp, "
+      "the cancel blocks of connectionLost, sendPING/sendPONG and EPSILON are translated on every run; about 2400 timer schedules on the real "
+      "Broker under a virtual integer clock (teardown / ping times, pending timers after every event) and 512 PING/PONG cases compared by "
+      "vm_compute; direct oracles incl. float seconds, pending callRemote -> DeadReferenceError, two live Tubs with a black-holed network, PING/PONG "
+      "at every token boundary of nested messages under all chunkings.",
+      "Integer-ms time (binary-float ties at an exact boundary out of scope); one time.time() per reactor turn; PING/PONG transparency is proved on a "
+      "token-level dispatch model (byte level: C07 + correspondence).",
+      "Coq proofs (lia) over event lists on translated timer callbacks + vm_compute correspondence with the real Broker under a virtual clock", "DESIGN.md 5/C15")
